@@ -92,10 +92,10 @@ fn under_flex(ty: &Ty, v: &Value, path: &[u16]) -> bool {
 /// Where emplacing `v` into `n` bytes fails: path of the first node (in emplacement
 /// order) that does not fit, and whether the emplacer protocol has already written
 /// parts of the target when the failure is detected. None if it fits.
-pub fn fit_failure(ty: &Ty, v: &Value, n: usize) -> Option<(Vec<u16>, bool)> {
-    fn go(ty: &Ty, v: &Value, n: usize, path: &mut Vec<u16>) -> Option<(Vec<u16>, bool)> {
+pub fn fit_failure(ty: &Ty, v: &Value, n: usize) -> Option<(Vec<u16>, bool, bool)> {
+    fn go(ty: &Ty, v: &Value, n: usize, path: &mut Vec<u16>) -> Option<(Vec<u16>, bool, bool)> {
         if n < model::min_size(ty) {
-            return Some((path.clone(), false));
+            return Some((path.clone(), false, false));
         }
         match (ty, v) {
             (Ty::Struct(s), Value::Struct(fs)) if !s.sized => {
@@ -105,15 +105,16 @@ pub fn fit_failure(ty: &Ty, v: &Value, n: usize) -> Option<(Vec<u16>, bool)> {
                 path.push(k as u16);
                 let r = go(&s.fields[k], &fs[k], n - offs[k], path);
                 path.pop();
-                // the sized fields before the last one have been written by then
-                r.map(|(p, w)| (p, w || k > 0))
+                // the sized fields before the last one have been written by then; the failing part
+                // is below a generated *Init emplacer, which cannot roll back
+                r.map(|(p, w, _)| (p, w || k > 0, true))
             }
             (Ty::Enum(e), Value::Enum(i, fs)) if !e.sized => {
                 let n = model::round_down(n, model::align(ty));
                 let d = model::enum_data_offset(e);
                 let fields = &e.variants[*i].fields;
                 if n - d < model::variant_min_size(fields) {
-                    return Some((path.clone(), false));
+                    return Some((path.clone(), false, false));
                 }
                 if let Some(last) = fields.last() {
                     if !last.is_sized() {
@@ -123,13 +124,13 @@ pub fn fit_failure(ty: &Ty, v: &Value, n: usize) -> Option<(Vec<u16>, bool)> {
                         let r = go(last, &fs[k], n - d - offs[k], path);
                         path.pop();
                         // the tag (and earlier fields) have been written by then
-                        return r.map(|(p, _)| (p, true));
+                        return r.map(|(p, _, _)| (p, true, true));
                     }
                 }
                 None
             }
-            (Ty::FlatVec(..), Value::Vec(xs)) => (xs.len() > model::capacity(ty, n)).then(|| (path.clone(), false)),
-            (Ty::FlatString(_), Value::Str(s)) => (s.len() > model::capacity(ty, n)).then(|| (path.clone(), false)),
+            (Ty::FlatVec(..), Value::Vec(xs)) => (xs.len() > model::capacity(ty, n)).then(|| (path.clone(), false, false)),
+            (Ty::FlatString(_), Value::Str(s)) => (s.len() > model::capacity(ty, n)).then(|| (path.clone(), false, false)),
             (Ty::FlexVec(t, l), Value::Flex(xs)) => {
                 let a = model::align(ty);
                 let n = model::round_down(n, a);
@@ -137,19 +138,19 @@ pub fn fit_failure(ty: &Ty, v: &Value, n: usize) -> Option<(Vec<u16>, bool)> {
                 let mut pos = 0;
                 for (i, x) in xs.iter().enumerate() {
                     if pos + os > n {
-                        return Some((path.clone(), i > 0));
+                        return Some((path.clone(), i > 0, false));
                     }
                     path.push(i as u16);
                     let r = go(t, x, n - pos - os, path);
                     path.pop();
-                    if let Some((p, _)) = r {
+                    if let Some((p, _, u)) = r {
                         // the item emplacer works inside the old chain's bytes; flex::FromIterator
-                        // cannot know whether it wrote anything and resets the vector
-                        return Some((p, true));
+                        // cannot know whether it wrote anything and resets the vector (valid, but changed)
+                        return Some((p, true, u));
                     }
                     let stride = os + model::round_up(model::size_of(t, x), a);
                     if i + 1 < xs.len() && stride as u128 >= l.max() {
-                        return Some((path.clone(), true));
+                        return Some((path.clone(), true, false));
                     }
                     pos += stride;
                 }
@@ -186,8 +187,8 @@ enum Expect {
     Refused,
     Popped(Option<Value>, Value),
     Removed(Value, Value),
-    /// failed assignment: valid value afterwards; Some(v) if it must be unchanged
-    AssignFails,
+    /// failed assignment: the target must be a valid value afterwards, and unchanged if `unchanged`
+    AssignFails { unchanged: bool },
 }
 
 fn op_kind(op: &Op) -> Clause {
@@ -255,7 +256,11 @@ fn gen_step(ty: &Ty, dec: &Decoded, bytes: &[u8], t: &mut Tape, cfg: &HistCfg, s
     fuel.max_len = 6;
     let assign = |t: &mut Tape, st: &mut Stats| -> Option<Step> {
         // replacement value for an unsized node (or a sized one through assign_in_place)
-        let mut fuel = if t.chance(1, 3) { Fuel { elems: 200, max_len: 40 } } else { Fuel::small() };
+        let mut fuel = match t.below(8) {
+            0 | 1 => Fuel { elems: 200, max_len: 40 },
+            2 => Fuel { elems: 700, max_len: 280 },
+            _ => Fuel::small(),
+        };
         let nv2 = gen_value(nty, t, &mut fuel);
         let route = t.route(3);
         // iterator-driven emplacers of unknown length cannot be transactional: keep to exact-size routes
@@ -263,25 +268,28 @@ fn gen_step(ty: &Ty, dec: &Decoded, bytes: &[u8], t: &mut Tape, cfg: &HistCfg, s
         let expect = match &fail {
             None => {
                 if model::encode(nty, &nv2, nd.len, 0, &mut Canonical).is_err() {
-                    // not representable for another reason (stride of a sealed FlexVec item)
-                    Expect::AssignFails
+                    // not representable for another reason
+                    Expect::AssignFails { unchanged: false }
                 } else {
                     Expect::Done(nv2.clone())
                 }
             }
-            Some(_) => Expect::AssignFails,
-        };
-        if expect == Expect::AssignFails {
-            // Known finding C18|nested-emplacer-failure: when the part that does not fit is
-            // reached after a struct / enum / FlexVec emplacer has already written earlier
-            // parts (tag, sized fields, earlier items), the emplacer protocol cannot roll back.
-            // Failures detected before anything is written must leave the target unchanged.
-            let wrote_before = fail.as_ref().map(|(_, w)| *w).unwrap_or(true);
-            if wrote_before {
-                st.exclude("assign fails after parts of the target were written (known finding C18|nested-emplacer-failure)");
-                return None;
+            Some((_, wrote_before, under_init)) => {
+                if *wrote_before && *under_init {
+                    // Known finding C18|nested-emplacer-failure: the part that does not fit is reached after a
+                    // generated struct / enum *Init emplacer has already written the tag / earlier fields; the
+                    // emplacer protocol cannot roll back and the result may even be invalid.
+                    st.exclude("assign fails below a struct/enum *Init after parts were written (known finding C18|nested-emplacer-failure)");
+                    return None;
+                }
+                if *wrote_before {
+                    // FlexVec assignments: earlier items are already written into the old chain's bytes, so the
+                    // old content cannot survive (same known finding), but the result must be a valid value
+                    st.exclude("unchanged-clause of a failing FlexVec assignment (known finding C18|nested-emplacer-failure); validity is still checked");
+                }
+                Expect::AssignFails { unchanged: !*wrote_before }
             }
-        }
+        };
         Some(Step {
             path: path.clone(),
             desc: format!("assign_in_place({}) at {:?}", nv2.show(), path),
@@ -741,7 +749,7 @@ pub fn run_history(sh: &dyn DynShape, tape: &[u8], cfg: &HistCfg, st: &mut Stats
                     continue;
                 };
                 last_clause = match (&step.op, &step.expect) {
-                    (Op::Assign(..), Expect::AssignFails) => Clause::AssignValid,
+                    (Op::Assign(..), Expect::AssignFails { .. }) => Clause::AssignValid,
                     (Op::Assign(..) | Op::Set(_), _) => Clause::AssignOk,
                     (_, Expect::Refused) => Clause::RefusedUnchanged,
                     (op, _) => op_kind(op),
@@ -749,7 +757,8 @@ pub fn run_history(sh: &dyn DynShape, tape: &[u8], cfg: &HistCfg, st: &mut Stats
                 // ownership of the *operation semantics* also extends to the model clause of its kind
                 let kind_clause = op_kind(&step.op);
                 step_owned = cfg.owns(last_clause)
-                    || (cfg.owns(kind_clause) && last_clause != Clause::RefusedUnchanged && last_clause != Clause::AssignValid)
+                    // a refused growth is part of the sequential model of C11 / C12 too ("growth is refused beyond the capacity")
+                    || (cfg.owns(kind_clause) && last_clause != Clause::AssignValid)
                     || (cfg.owns(Clause::FlexModel) && kind_clause == Clause::VecModel && last_clause == Clause::VecModel && under_flex(ty, &abs, &step.path))
                     || (cfg.owns(Clause::RefusedUnchanged) && after_refusal && last_clause != Clause::AssignValid && kind_clause != Clause::AssignOk);
                 if matches!(step.expect, Expect::Refused) {
@@ -859,13 +868,17 @@ pub fn run_history(sh: &dyn DynShape, tape: &[u8], cfg: &HistCfg, st: &mut Stats
                             }
                         }
                     }
-                    (Expect::AssignFails, OpOut::Err(..)) => {
+                    (Expect::AssignFails { unchanged }, OpOut::Err(..)) => {
                         labels.push("assignment failed");
                         outcome.assign_failed = true;
                         if cfg.owns(Clause::AssignValid) {
                             match model::decode(ty, &after, 0) {
                                 Ok(d2) => {
-                                    if d2.value != abs {
+                                    if !*unchanged {
+                                        // valid but (legitimately) changed: continue from what is there now
+                                        labels.push("assignment failed: valid, content replaced");
+                                        abs = d2.value.clone();
+                                    } else if d2.value != abs {
                                         stop = Some(Stop::Violation(Violation {
                                             key: "assign-changed".into(),
                                             msg: format!("{}: {:?}: the target has too little room, but the failed assignment changed it: now {}, before {}", name, outcome.trace, d2.value.show(), abs.show()),
